@@ -184,9 +184,35 @@ class Slice(AbsVal):
             return BuiltinType("str")
         if name == "__str__":
             return self
+        if name in ("splitlines", "split"):
+            return SliceParts(self, name, tuple(args))
         return NotImplemented
 
     def subscript(self, it, idx):
+        return NotImplemented
+
+
+class SliceParts(AbsVal):
+    """`slice.splitlines()` / `slice.split(...)`: a list of unknown length (possibly empty) of pieces of the slice."""
+
+    def __init__(self, src, how, args):
+        self.src, self.how, self.args = src, how, args
+
+    def __repr__(self):
+        return f"{self.src!r}.{self.how}()"
+
+    def subscript(self, it, idx):
+        from .absint import ExcVal, Raised
+        if isinstance(idx, int) and not isinstance(idx, bool):
+            # the slice may be empty (splitlines of '' is []): indexing can fail
+            if self.how == "splitlines" and it.fork_bool(("parts-empty", repr(self.src)), f"{self!r} is empty"):
+                raise Raised(ExcVal("IndexError", ["list index out of range"]), None)
+            return Slice(self.src.lo, self.src.hi, self.src.ops + (f"{self.how}[{idx}]",))
+        return NotImplemented
+
+    def call_method(self, it, name, args, kwargs):
+        if name == "__len__":
+            return Unknown(f"len({self!r})", "int")
         return NotImplemented
 
 
